@@ -26,7 +26,7 @@ inductive Act where
 def Act.kind : Act → Char | .mk k _ => k
 def Act.sub : Act → List Act | .mk _ s => s
 
-def isKind (c : Char) : Bool := c == 'R' || c == 'r' || c == 'N' || c == 'F' || c == 'f' || c == 'n'
+def isKind (c : Char) : Bool := c == 'R' || c == 'r' || c == 'N' || c == 'F' || c == 'f' || c == 'n' || c == 'P'
 
 /-- recursive descent over `R(..)rNF(..)fn`; returns the items and the unread rest -/
 partial def parseActs (cs : List Char) (acc : List Act) : List Act × List Char :=
@@ -64,9 +64,25 @@ structure D where
   sentId : List (Nat × Nat) := []      -- instance -> id the peer saw (0 = notify)
   nextFire : Nat := 0
   iss : List String := []              -- newest first
+  pans : List Nat := []                -- times at which a timeout callback panicked (newest first)
+  panicked : Bool := false             -- a panic is unwinding the current expiry scan
   started : Bool := false
 
 def lookupD {α : Type} (k : Nat) (l : List (Nat × α)) : Option α := (l.find? (fun e => e.1 == k)).map (·.2)
+
+mutual
+/-- what a callback does: its items in order; `P` = panic, which only happens inside an
+expiry scan (the harness' scripts panic on timeout completions only) and unwinds everything -/
+partial def runScript (d : D) (acts : List Act) : D :=
+  match acts with
+  | [] => d
+  | a :: rest =>
+    if d.panicked then d
+    else if a.kind == 'P' then
+      match d.s.base with
+      | .inTick _ _ => { d with s := step d.s .panic, panicked := true, pans := d.s.now :: d.pans }
+      | _ => runScript d rest
+    else runScript (doIssue d a "x.y") rest
 
 partial def doIssue (d : D) (a : Act) (route : String) : D :=
   let inst := d.s.ninst
@@ -78,25 +94,27 @@ partial def doIssue (d : D) (a : Act) (route : String) : D :=
     nextFire := if !d.s.armed && s'.armed then s'.now + 1000 else d.nextFire,
     iss := s!"{inst}:{a.kind}@{d.s.now}" :: d.iss }
   if s'.nest > d.s.nest then
-    let d'' := a.sub.foldl (fun d b => doIssue d b "x.y") d'
-    { d'' with s := ret d''.s }
+    let d'' := runScript d' a.sub
+    if d''.panicked then d'' else { d'' with s := ret d''.s }
   else d'
+end
 
 /-- run the callbacks the model is waiting for, until the goroutine is free again -/
 partial def settle (d : D) : D :=
   match d.s.base with
   | .idle => d
-  | .inResp id | .inTick id _ =>
-    let script := match find id d.s.pending with
-      | some w => (lookupD w.inst d.scripts).getD []
-      | none => []
-    let d := script.foldl (fun d b => doIssue d b "x.y") d
-    settle { d with s := ret d.s }
+  | .inResp inst | .inTick inst _ =>
+    let d := runScript d ((lookupD inst d.scripts).getD [])
+    if d.panicked then { d with panicked := false } else settle { d with s := ret d.s }
 
-partial def advLoop (d : D) (target : Nat) (order : List Nat) : D :=
+/-- `order` token: an instance tag, or `i<id>` for a raw id (nil-callback entries) -/
+def orderId (d : D) (tok : String) : Option Nat :=
+  if tok.startsWith "i" then (tok.drop 1).toString.toNat? else tok.toNat?.bind (fun k => lookupD k d.sentId)
+
+partial def advLoop (d : D) (target : Nat) (order : List String) : D :=
   if d.s.armed && d.nextFire ≤ target then
     let d := { d with s := step d.s (.advance (d.nextFire - d.s.now)) }
-    let d := settle { d with s := tick d.s (order.filterMap (fun k => lookupD k d.sentId)) }
+    let d := settle { d with s := tick d.s (order.filterMap (orderId d)) }
     let d := if d.s.armed then { d with nextFire := d.s.now + 1000 } else d
     advLoop d target order
   else { d with s := { d.s with now := target } }
@@ -126,8 +144,8 @@ def observe (d : D) (status : String) : D × String :=
     | .sent inst id => some s!"{inst}:{id}:{(lookupD inst d.routes).getD "?"}"
     | _ => none
   let pend := (sortNat (keys d.s.pending)).map toString
-  let o := s!"{status} iss={joinC d.iss.reverse} cb={joinC cbs} sent={joinC sent} pend={joinC pend}"
-  ({ d with s := { d.s with log := [] }, iss := [] }, o)
+  let o := s!"{status} iss={joinC d.iss.reverse} cb={joinC cbs} sent={joinC sent} pend={joinC pend} pan={joinC (d.pans.reverse.map toString)}"
+  ({ d with s := { d.s with log := [] }, iss := [], pans := [] }, o)
 
 def payloadOf (kind : String) (w : Nat) : Option Payload :=
   match kind with
@@ -162,7 +180,7 @@ def stepModel (d : D) (line : String) : D × String :=
     match op with
     | "req" =>
       match parseActs ((kv ws "s").getD "").toList [] with
-      | ([a], _) => observe (doIssue d a "a.b") "ok"
+      | ([a], _) => if a.kind == 'P' then (d, "bad-op") else observe (doIssue d a "a.b") "ok"
       | _ => (d, "bad-op")
     | "noroute" =>
       let now := d.s.now
@@ -185,7 +203,7 @@ def stepModel (d : D) (line : String) : D × String :=
     | "adv" =>
       match kvNat ws "dt" with
       | some dt =>
-        let order := parseNatList ((kv ws "order").getD "")   -- instance tags, resolved to ids at each scan
+        let order := (((kv ws "order").getD "").splitOn ",").filter (· ≠ "")   -- resolved to ids at each scan
         observe (advLoop d (d.s.now + dt) order) "ok"
       | none => (d, "bad-op")
     | _ => (d, "bad-op")
@@ -206,6 +224,7 @@ structure SS where
   now : Nat := 0
   insts : List Inst := []
   prevPend : List Nat := []
+  pans : List Nat := []        -- times of recovered callback panics: each one excuses one expiry scan
   poisoned : Bool := false     -- a violation was already reported in this case: the bookkeeping is void
 
 structure CbEv where
@@ -338,6 +357,9 @@ def specStep (st : SS) (line : String) : SS × String :=
         | some a => updInst insts a.tag (fun i => { i with answered := true })
         | none => insts
       let pend : List Nat := (listOf os "pend").filterMap String.toNat?
+      let pans : List Nat := st.pans ++ (listOf os "pan").filterMap String.toNat?
+      -- the scan period, stretched by one period per panic that aborted a scan after the deadline
+      let grace (i : Inst) : Nat := 1000 * (1 + (pans.filter (fun t => t > i.t0 + reqTimeout)).length)
       let unknownNew := pend.filter fun id => !st.prevPend.contains id && !(insts.any (·.id == some id))
       let missedAnswer : Option String := answers.bind fun a =>
         if a.kind == 'R' && !(getInst insts a.tag).any (·.cbSeen) then
@@ -359,7 +381,7 @@ def specStep (st : SS) (line : String) : SS × String :=
           else some (viol "pending-residue" s!"pending id {id} belongs to no outstanding request" op)
         | is =>
           -- some instance registered under this id may legitimately still be pending
-          if is.any (fun i => !i.cbSeen && !i.answered && now < i.t0 + reqTimeout + 1000) then none
+          if is.any (fun i => !i.cbSeen && !i.answered && now < i.t0 + reqTimeout + grace i) then none
           else if is.any (fun i => i.kind == 'R' && !i.cbSeen && !i.answered) then
             some (viol "never-completed" s!"request under id {id} is {now} - t0 past deadline + scan period and still not completed" op)
           else some (viol "pending-residue" s!"id {id} is still pending after its request was completed / answered / expired" op))
@@ -374,7 +396,7 @@ def specStep (st : SS) (line : String) : SS × String :=
         if opk == "req" && (((kv ws "s").getD "") == "N" || ((kv ws "s").getD "") == "n") && sortNat pend != sortNat st.prevPend then
           some (viol "notify-created-pending" s!"a notification changed the pending table {st.prevPend} -> {pend}" op) else none
       let res := firstSome [badSent, cbViol, serFail, ntfViol, missedAnswer, xMissing, pendViol, lostViol]
-      ({ now := now, insts := insts, prevPend := pend, poisoned := res.isSome }, res.getD "ok")
+      ({ now := now, insts := insts, prevPend := pend, pans := pans, poisoned := res.isSome }, res.getD "ok")
     | none => (st, "ok")
   | _ => (st, "bad-line")
 
